@@ -32,7 +32,8 @@ from rpylib.product.product import Product
 from rpylib.product.underlying import Spot
 
 RULE = ("models: defaults of HEM / Merton / VG / CGMY / Black-Scholes, every CGMY activity branch (y<0, y=0, 0<y<1, y=1, 1<y<2) and "
-        "random draws from the boxes of harness/zoo.py; exponent: complex u on a grid with |Im u| <= 1 (inside the strip of "
+        "random draws from the boxes of harness/zoo.py, each both freshly constructed and rebuilt after a parameter history (one primary "
+        "parameter edited, initialisation(), edited back, initialisation(): the calibration idiom); exponent: complex u on a grid with |Im u| <= 1 (inside the strip of "
         "analyticity), every representation admissible for the measure (ZERO only with finite variation); walks: 1..12 random "
         "representation changes on the model's measure and on its truncation to a grid box; exponential models: spot, r, d draws; "
         "chains: uniform / fixed-size grids with h in {0.1, 0.05, 0.02}. non-trivial = the quadrature converged (estimated error "
@@ -78,10 +79,15 @@ def ybranch(fam, params):
 
 
 def make(fam, params, exp=False, **kw):
+    """params may carry the marker "__reinit__": the model is then rebuilt the way calibration rebuilds it (parameter object
+    edited and re-initialised, zoo.reinitialised) - a second construction history of the same model"""
+    params = dict(params)
+    reinit = params.pop("__reinit__", False)
     if fam == "bs":
         em = zoo.make_exp("bs", params, **kw)
         return em if exp else em.levy_model
-    return zoo.make_exp(fam, params, **kw) if exp else zoo.make_levy(fam, params)
+    m = zoo.make_exp(fam, params, **kw) if exp else zoo.make_levy(fam, params)
+    return zoo.reinitialised(m, fam, params) if reinit else m
 
 
 # ------------------------------------------------------------------------------------------------- quadrature of nu
@@ -624,6 +630,12 @@ def run(ctx):
         routes_probe(ctx, fam, params, spot, r, d)
         if fam == "bs":
             continue
+        # the same model after a parameter history (edit, initialisation(), edit back, initialisation(): what calibration does)
+        hp = dict(params, __reinit__=True)
+        routes_probe(ctx, fam, hp, spot, r, d)
+        exponent_probe(ctx, fam, hp, [-1j, rng.choice([u for u in U_GRID if u != -1j])])
+        if i % 3 == 0:
+            cumulant_probe(ctx, fam, hp)
         m = make(fam, params)
         fv = bool(m.levy_triplet.nu.jump_of_finite_variation())
         for _ in range(ctx.n(3, 8)):
